@@ -22,6 +22,11 @@ struct CTrig(u32, [u8; 8]);
 struct SEv(u32, [u8; 8]);
 #[derive(Event, Serialize, Deserialize, Clone, Debug)]
 struct STrig(u32, [u8; 8]);
+/// independent variants (sent immediately, not buffered until the tick)
+#[derive(Event, Serialize, Deserialize, Clone, Debug)]
+struct SEvI(u32, [u8; 8]);
+#[derive(Event, Serialize, Deserialize, Clone, Debug)]
+struct STrigI(u32, [u8; 8]);
 
 #[derive(Clone, Copy, Debug)]
 enum Emit {
@@ -29,6 +34,8 @@ enum Emit {
     CT(u32, bool),
     S(u32, u8),
     ST(u32, u8, bool),
+    SI(u32, u8),
+    STI(u32, u8),
 }
 #[derive(Resource, Default)]
 struct Queue(Vec<Emit>);
@@ -86,6 +93,18 @@ fn emit(world: &mut World) {
                     world.resource_mut::<Seen>().at_emit.push((s, 10 + m, running));
                 }
             }
+            Emit::SI(s, m) => {
+                if st == 0 {
+                    world.send_event(ToClients { mode: mode(m), event: SEvI(s, tag(s)) });
+                    world.resource_mut::<Seen>().at_emit.push((s, 10 + m, running));
+                }
+            }
+            Emit::STI(s, m) => {
+                if st == 0 {
+                    world.server_trigger(ToClients { mode: mode(m), event: STrigI(s, tag(s)) });
+                    world.resource_mut::<Seen>().at_emit.push((s, 10 + m, running));
+                }
+            }
             Emit::ST(s, m, with_target) => {
                 if st == 0 {
                     if with_target {
@@ -113,6 +132,10 @@ fn make_app(auth: u8, dedicated: bool) -> App {
         .add_client_trigger::<CTrig>(Channel::Ordered)
         .add_server_event::<SEv>(Channel::Ordered)
         .add_server_trigger::<STrig>(Channel::Ordered)
+        .add_server_event::<SEvI>(Channel::Ordered)
+        .make_event_independent::<SEvI>()
+        .add_server_trigger::<STrigI>(Channel::Ordered)
+        .make_trigger_independent::<STrigI>()
         .init_resource::<Queue>()
         .init_resource::<Seen>()
         .add_systems(Update, emit)
@@ -131,6 +154,9 @@ fn make_app(auth: u8, dedicated: bool) -> App {
         })
         .add_observer(|t: Trigger<STrig>, mut s: ResMut<Seen>| {
             s.local.push(t.event().0);
+        })
+        .add_observer(|t: Trigger<STrigI>, mut s: ResMut<Seen>| {
+            s.local.push(t.event().0);
         });
     if dedicated {
         app.add_systems(PreUpdate, |mut r: EventReader<SEv>, mut s: ResMut<Seen>| {
@@ -138,7 +164,21 @@ fn make_app(auth: u8, dedicated: bool) -> App {
                 s.local.push(e.0);
             }
         });
+        app.add_systems(PreUpdate, |mut r: EventReader<SEvI>, mut s: ResMut<Seen>| {
+            for e in r.read() {
+                s.local.push(e.0);
+            }
+        });
     } else {
+        app.add_systems(
+            PreUpdate,
+            (|mut r: EventReader<SEvI>, mut s: ResMut<Seen>| {
+                for e in r.read() {
+                    s.local.push(e.0);
+                }
+            })
+            .after(ClientSet::Receive),
+        );
         app.add_systems(
             PreUpdate,
             (|mut r: EventReader<SEv>, mut s: ResMut<Seen>| {
@@ -164,6 +204,9 @@ pub enum Step {
     EmitCT(bool),
     EmitS(u8),
     EmitST(u8, bool),
+    #[serde(alias = "EmitSI")]
+    EmitSI(u8),
+    EmitSTI(u8),
     Frame,
 }
 
@@ -204,8 +247,10 @@ pub fn run(c: &Case) -> Outcome {
         }
         let running = app.world().resource::<RepliconServer>().is_running();
         let n = app.world_mut().resource_mut::<RepliconServer>().drain_sent().count();
-        if n != 0 && !running && fail.is_none() {
-            *fail = Some(Fail::new("C13.sent_without_connection", "the server produced messages while not running".to_string()));
+        // this app never has a connected client entity: whatever the server queues for sending has no connection to go to
+        let _ = running;
+        if n != 0 && fail.is_none() {
+            *fail = Some(Fail::new("C13.sent_without_connection", format!("the server queued {n} message(s) for sending although no client is connected")));
         }
     };
     for st in &c.steps {
@@ -256,6 +301,10 @@ pub fn run(c: &Case) -> Outcome {
                     Step::EmitCT(t) => Emit::CT(seq, t),
                     Step::EmitS(m) => Emit::S(seq, m % 5),
                     Step::EmitST(m, t) => Emit::ST(seq, m % 5, t),
+                    // independent events are sent at once, without a lookup of the recipient: naming a client entity that
+                    // does not exist is the game's error, so Direct(<unknown>) is not generated for them
+                    Step::EmitSI(m) => Emit::SI(seq, m % 4),
+                    Step::EmitSTI(m) => Emit::STI(seq, m % 4),
                     _ => unreachable!(),
                 };
                 app.world_mut().resource_mut::<Queue>().0.push(em);
@@ -342,6 +391,8 @@ fn step() -> impl Strategy<Value = Step> {
         3 => any::<bool>().prop_map(Step::EmitCT),
         3 => (0u8..5).prop_map(Step::EmitS),
         3 => (0u8..5, any::<bool>()).prop_map(|(m, t)| Step::EmitST(m, t)),
+        2 => (0u8..5).prop_map(Step::EmitSI),
+        2 => (0u8..5).prop_map(Step::EmitSTI),
         8 => Just(Step::Frame),
     ]
 }
